@@ -8,7 +8,7 @@ from ..cfg import cfg_of, no_exc
 from ..esc import Esc, Outcome
 from ..model import AnalysisError, EnumMember, FuncInfo, is_self_attr, norm, unparse, walk_shallow
 from ..report import Check
-from ..rules import calls_in_func, last_name
+from ..rules import calls_in_func, caught_exception_args, last_name
 from . import common
 
 FUTURE_SINKS = ('future:self', 'future:kiwi_future', 'future:future', 'future:unwrapping', 'future:execute_future')
@@ -27,8 +27,8 @@ def category(f: FuncInfo, t) -> Tuple[str, Set[str], Set[str], Optional[str]]:
         return 'scheduled callback', {'callback_excepted'}, set(), 'events.ProcessCallback.run'
     if q in ('workchains._FunctionStepper.step', 'workchains._Conditional.is_true'):
         return 'outline step / predicate', {'excepted-state'}, PUBLIC, None
-    if q == 'event_helper.EventHelper.fire_event':
-        return 'listener', {'logged'}, set(), 'event_helper.EventHelper.fire_event'
+    if f.module.short == 'event_helper' and t.ukind == 'getattr-callable':
+        return 'listener', {'logged'}, set(), 'module:event_helper'
     if q == 'processes.Process.on_close':
         return 'cleanup', {'logged', 'transition_failed'}, PUBLIC, None
     if q == 'processes.Process._do_pause':
@@ -100,8 +100,10 @@ def containment(chk: Check) -> None:
                            kind=f'root:{what}')
                 else:
                     ok = what in sinks
-                    if first is not None:
-                        ok = ok and all(x.container.func.qualname == first for x in os_)
+                    if first is not None and first.startswith('module:'):
+                        ok = ok and all(x.container.func.module.short == first[7:] for x in os_)
+                    elif first is not None:
+                        ok = ok and all((x.container.func.origin or x.container.func).qualname == first for x in os_)
                     chk.ob('ESC-containment', f, ok, f'{cat}: along {o.chain()} the exception is first caught in {o.container.func.short} and goes to '
                            f'"{what}"' + ('' if ok else f' -- the property wants one of {sorted(sinks)}' + (f' inside {first}' if first else '')),
                            node=call, kind=f'sink:{what}')
@@ -156,15 +158,19 @@ def construction_propagates(chk: Check) -> None:
     # transition_to hands label and exc_info to transition_failed; re-raises only for a second fault
     tt = prog.func('base.state_machine.StateMachine.transition_to')
     calls = [c for c in calls_in_func(tt, 'transition_failed')]
-    ok = len(calls) == 1 and [norm(a) for a in calls[0].args] == ['initial_state_label', 'label', '*sys.exc_info()[1:]']
-    chk.ob('GUARD-construction', tt, ok, 'transition_to reports (initial label, target label, exception, traceback) to transition_failed', node=calls[0] if calls else None,
-           kind='failed-args')
+    ok = len(calls) == 1 and len(calls[0].args) >= 3 and caught_exception_args(tt, calls[0], calls[0].args[2:])
+    chk.ob('GUARD-construction', tt, ok, 'transition_to reports (initial label, target label, exception being handled, its traceback) to transition_failed',
+           node=calls[0] if calls else None, kind='failed-args')
     tf_facts = chk.ctx.facts.analyse(tt)
     rr = [n for n in tf_facts.cfg.nodes if n.kind == 'raisestmt' and n.ast.exc is None]
     ok = all(('T', 'self._transition_failing') in tf_facts.at(n) for n in rr)
     chk.ob('GUARD-construction', tt, ok, 'transition_to itself re-raises only when the failing transition was already the follow-up of a failure', kind='reraise-only-second-fault')
-    lbl_assign = [n for n in ast.walk(tt.node) if isinstance(n, ast.Assign) and norm(n.targets[0]) == 'label' and norm(n.value) == 'new_state.LABEL']
-    chk.ob('GUARD-construction', tt, len(lbl_assign) >= 1, 'the target label reported is that of the state being entered', kind='label-tracked')
+    lbl_var = norm(calls[0].args[1]) if calls and len(calls[0].args) >= 2 else ''
+    assigns = [n for n in ast.walk(tt.node) if isinstance(n, ast.Assign) and norm(n.targets[0]) == lbl_var]
+    entered_vars = {norm(c.args[0]) for c in calls_in_func(tt, '_enter_next_state') if c.args}
+    ok = bool(assigns) and all(norm(n.value) == 'None' or any(norm(n.value) in (f'{v}.LABEL', f'{v}.label') for v in entered_vars) for n in assigns) and any(
+        norm(n.value) != 'None' for n in assigns)
+    chk.ob('GUARD-construction', tt, ok, 'the target label reported is that of the state being entered', kind='label-tracked')
 
 
 # ---------------------------------------------------------------------- 3. PAIR flags
@@ -219,7 +225,7 @@ def prov_failure_states(chk: Check) -> None:
             args = [norm(a) for a in c.args[1:]]
             kws = {k.arg: norm(k.value) for k in c.keywords}
             if q in ('process_states.Running.execute', 'processes.Process.step'):
-                ok = args == ['*sys.exc_info()[1:]'] and not kws
+                ok = caught_exception_args(f, c, c.args[1:]) and not kws
                 # and it sits in the catch-all handler
                 pm = Esc(chk.ctx).parents(f)
                 cur, in_handler = c, False
@@ -241,7 +247,7 @@ def prov_failure_states(chk: Check) -> None:
     # what the state machinery does with them
     ex = prog.cls('process_states.Excepted')
     from .c13 import captured_fields
-    cap = {a: p for a, p, k in captured_fields(ex.methods['__init__'])}
+    cap = {a: p for a, p, k in captured_fields(prog.view(ex.methods['__init__']))}
     chk.ob('PROV-failure-state', ex.qualname, cap.get('exception') == 'exception' and cap.get('traceback') == 'trace_back', f'Excepted stores them ({cap})', kind='stored')
     ge = prog.func('process_states.Excepted.get_exc_info')
     rets = [n for n in ast.walk(ge.node) if isinstance(n, ast.Return)]
@@ -249,8 +255,7 @@ def prov_failure_states(chk: Check) -> None:
     chk.ob('PROV-failure-state', ge, ok, 'get_exc_info() hands back (type, exception, traceback)', kind='exc-info')
     cb = prog.func('events.ProcessCallback.run')
     ce = [c for c in calls_in_func(cb, 'callback_excepted')]
-    ok = len(ce) == 1 and [norm(a) for a in ce[0].args[1:]] == ['exc_info[1]', 'exc_info[2]'] and any(
-        isinstance(n, ast.Assign) and norm(n.targets[0]) == 'exc_info' and norm(n.value) == 'sys.exc_info()' for n in ast.walk(cb.node))
+    ok = len(ce) == 1 and caught_exception_args(cb, ce[0], ce[0].args[1:])
     chk.ob('PROV-failure-state', cb, ok, 'a failing scheduled callback reports its exception and traceback to callback_excepted', node=ce[0] if ce else None, kind='callback-exc-info')
     ce_f = prog.func('processes.Process.callback_excepted')
     fl = [c for c in calls_in_func(ce_f, 'fail')]
